@@ -49,6 +49,24 @@ pub fn run(tier: Tier, seed: u64) -> i32 {
             cases.push((*k, off));
         }
     }
+    // random op-sequence programs of arbitrary size between the sweeps (the
+    // sweep above only visits neighbourhoods of powers of two): encoded as
+    // k = 0 and the row count in the offset field
+    let n_free = tier.pick(40usize, 600usize);
+    let free_from = cases.len();
+    {
+        let mut r = case_rng(seed, "C01.free", 0);
+        for _ in 0..n_free {
+            let rows = match r.next_u32() % 4 {
+                0 => 6 + r.next_u32() % 40,
+                1 => 40 + r.next_u32() % 200,
+                2 => 200 + r.next_u32() % 500,
+                _ => 6 + r.next_u32() % 1100,
+            };
+            cases.push((0, rows as i32));
+        }
+    }
+    let free_to = cases.len();
     // the minimal domains: a gate-free circuit (the 4 rows every composer
     // starts with, domain n = 4) and a single user row, at three capacities
     // each (k = 2, offsets 0 and 1; three entries so that ci % 3 visits every
@@ -60,7 +78,8 @@ pub fn run(tier: Tier, seed: u64) -> i32 {
     }
     par_cases(cases.len() as u64, threads(), |ci| {
         let (k, off) = cases[ci as usize];
-        let rows_i = (1i64 << k) + off as i64;
+        let free = (free_from..free_to).contains(&(ci as usize));
+        let rows_i = if free { off as i64 } else { (1i64 << k) + off as i64 };
         if rows_i < 6 && (ci as usize) < tiny_from {
             return;
         }
@@ -71,7 +90,7 @@ pub fn run(tier: Tier, seed: u64) -> i32 {
         // every other exactly-full domain holds arithmetic rows only: q_arith
         // is then the constant polynomial 1 and the custom-gate selectors are
         // zero polynomials (key polynomials of minimal length)
-        let uniform = off == 0 && k % 2 == 0;
+        let uniform = !free && off == 0 && k % 2 == 0;
         if uniform {
             cfg = GenCfg::arith_only();
             ev.bucket("all_arithmetic_full_domain");
@@ -269,6 +288,14 @@ pub fn run(tier: Tier, seed: u64) -> i32 {
             ev.bucket(&format!("tiny_domain.rows{rows}"));
             return;
         }
+        if free {
+            ev.bucket("free_size_programs");
+            ev.set_insert("free_sizes_log2", usize::BITS - rows.leading_zeros());
+            for f in &families {
+                ev.set_insert("families", f);
+            }
+            return;
+        }
         ev.set_insert("offsets", off);
         ev.set_insert(&format!("k@offset{off}"), k);
         ev.set_insert("k", k);
@@ -298,6 +325,7 @@ pub fn run(tier: Tier, seed: u64) -> i32 {
     ev.floor("full domains proved on a pool size that does not divide them", ev.bucket_get("full_domain_on_pool_not_dividing_it"), 6);
     ev.floor("circuits whose wire polynomials have vanishing top coefficients", ev.bucket_get("low_degree_wire_columns"), 8);
     ev.floor("full domains holding arithmetic rows only (constant q_arith)", ev.bucket_get("all_arithmetic_full_domain"), 2);
+    ev.floor("random programs of arbitrary size", ev.bucket_get("free_size_programs"), tier.pick(30, 500));
     ev.floor("gate-free circuits (domain of 4 rows)", ev.bucket_get("tiny_domain.rows4"), 3);
     ev.floor("single-row circuits", ev.bucket_get("tiny_domain.rows5"), 3);
     ev.finish()
